@@ -26,6 +26,7 @@ case "$TARGET" in
 esac
 SCALE="${VERIF_SCALE:-1}"
 RUNS=$(python3 -c "print(max(100,int($RUNS*$SCALE)))")
+export VERIF_DIR
 export ASAN_OPTIONS="detect_leaks=0:abort_on_error=1:symbolize=1:allocator_may_return_null=1"
 start=$(date +%s.%N)
 NPROC=16
